@@ -24,11 +24,11 @@ func init() {
 
 // Sites of the renderer/escapers in range by an argument the engine cannot express. One symbol, one reason.
 var c05Exceptions = []boundsException{
-	{"runtime.(*renderer).Text#txt[0]",
+	{"runtime.(*renderer).Text#$1[0]",
 		"txt is never empty: the Text instruction is emitted only for non-empty text (obligation R-4 compiler.emitText#non-empty-argument of this same check: every call of functionBuilder.emitText is dominated by len(txt) != 0, and flushText concatenates those chunks)"},
-	{"runtime.(*renderer).Text#txt[1:]",
+	{"runtime.(*renderer).Text#$1[1:]",
 		"same as txt[0]: under txt[0] == '?', so len(txt) ≥ 1"},
-	{"runtime.jsStringEscape#s[last:]",
+	{"runtime.jsStringEscape#$1[$2:]",
 		"last is i+1, or i+3 when the rune decoded at i by `for i, c := range s` is U+2028/U+2029, which occupy exactly three bytes of s starting at i; hence last ≤ len(s)"},
 }
 
